@@ -105,6 +105,15 @@ def apply_history(n, links, rem0, hist, rev=False):
         m = _late_append(n, links, rem0)
         wf = m.project.workflow
         wf.update_PERT_data(0)
+    elif rev == "late-link":
+        # built without its last link, PERT computed, then the link is added with append_input_task and everything is initialised again
+        m = build_wf(n, links[:-1], rem0, False)
+        wf = m.project.workflow
+        wf.initialize()
+        wf.update_PERT_data(0)
+        i, j = links[-1][0], links[-1][1]
+        m.tasks[j].append_input_task(m.tasks[i])
+        wf.initialize()
     else:
         m = build_wf(n, links, rem0, rev if rev != "loaded" else False)
         wf = m.project.workflow
@@ -287,12 +296,17 @@ def hist_items(tier):
                         out.append((n, links, rem0, 2, "prefinished"))
                         out.append((n, links, rem0, 1, "loaded"))
                         out.append((n, links, rem0, 1, "late-append"))
+                        for rot in range(len(links)):
+                            out.append((n, links[rot:] + links[:rot], rem0, 1, "late-link"))  # every link takes its turn as the one added late
         for links in F.fs_dags(4):
             for rem0 in itertools.product((0, 1, 2), repeat=4):
                 out.append((4, links, rem0, 3 if sum(rem0) % 2 == 0 else 1, False))
                 out.append((4, links, rem0, 1, True))
                 if sum(rem0) % 3 == 0:
                     out.append((4, links, rem0, 1, "order"))
+                if links and sum(rem0) % 4 == 1:
+                    for rot in range(len(links)):
+                        out.append((4, links[rot:] + links[:rot], rem0, 0, "late-link"))
     else:
         for n in (1, 2, 3, 4):
             for links in F.fs_dags(n):
@@ -302,6 +316,8 @@ def hist_items(tier):
                         out.append((n, links, rem0, 3, True))
                         out.append((n, links, rem0, 2, "loaded"))
                         out.append((n, links, rem0, 2, "late-append"))
+                        for rot in range(len(links)):
+                            out.append((n, links[rot:] + links[:rot], rem0, 2, "late-link"))
         for links in F.fs_dags(5):
             for rem0 in itertools.product((0, 1), repeat=5):
                 out.append((5, links, rem0, 3, False))
@@ -339,6 +355,9 @@ def run(tier, seed):
     si = sim_items(tier)
     H, D = (4, 1) if tier == "quick" else (5, 2)
     col.merge(stepcheck.explore(si, [mon_c12], H, D, who_fn=lambda sp: stepcheck.default_who(sp, facilities=False), seed=seed))
+    # blocks of consecutive project-wide absence steps (the clock goes on, so every update moves all values)
+    blocks = [(sp, dict(o, absence=list(ab))) for sp, o in si[:: (3 if tier == "quick" else 1)] for ab in ((1, 2), (0, 1, 2), (2, 3, 4), (1, 2, 4, 5))]
+    col.merge(stepcheck.explore(blocks, [mon_c12], 0, 0, seed=seed))
     meta = {
         "level": "model_checking",
         "rule": "breadth-first search over histories of progress(i) (remaining -= 1) and tick (t += 1), each followed by the real update_PERT_data(t), from a freshly "
